@@ -127,3 +127,59 @@ def diff(a, b, limit=5):
             if len(out) >= limit:
                 break
     return out
+
+
+def mutable_ids(root, stop_ids=frozenset()):
+    """ids (with a description) of the mutable container/instance objects reachable from `root` through
+    attributes and items, not descending into modules, classes or functions and not into objects in stop_ids"""
+    out = {}
+    seen = set()
+    stack = [(root, type(root).__name__)]
+    while stack:
+        o, path = stack.pop()
+        if isinstance(o, ATOM) or isinstance(o, (types.FunctionType, types.MethodType, type, functools._lru_cache_wrapper)):
+            if isinstance(o, types.MethodType):
+                stack.append((o.__self__, path + ".__self__"))
+            continue
+        i = id(o)
+        if i in seen or i in stop_ids:
+            continue
+        seen.add(i)
+        if isinstance(o, dict):
+            out[i] = path
+            for k, v in o.items():
+                stack.append((v, f"{path}[{k!r}]"))
+        elif isinstance(o, (list, set)):
+            out[i] = path
+            for n, v in enumerate(o):
+                stack.append((v, f"{path}[{n}]"))
+        elif isinstance(o, tuple):
+            for n, v in enumerate(o):
+                stack.append((v, f"{path}[{n}]"))
+        else:
+            if (type(o).__module__ or "").split(".")[0] not in PKGS:
+                continue
+            out[i] = path
+            if hasattr(o, "__dict__"):
+                for k, v in vars(o).items():
+                    stack.append((v, f"{path}.{k}"))
+            for cls in type(o).__mro__:
+                for sl in getattr(cls, "__slots__", ()) or ():
+                    if isinstance(sl, str) and hasattr(o, sl):
+                        stack.append((getattr(o, sl), f"{path}.{sl}"))
+    return out
+
+
+def module_level_ids():
+    """ids of the mutable objects reachable from the package's module and class dictionaries (shared by design)"""
+    out = set()
+    for m in roots_modules():
+        for k, v in vars(m).items():
+            if k.startswith("__"):
+                continue
+            out |= set(mutable_ids(v))
+            if isinstance(v, type) and (v.__module__ or "").split(".")[0] in PKGS:
+                for kk, vv in vars(v).items():
+                    if not (kk.startswith("__") and kk.endswith("__")):
+                        out |= set(mutable_ids(vv))
+    return out
